@@ -11,6 +11,7 @@ package simrt
 import (
 	"fmt"
 	"reflect"
+	"runtime"
 	"sort"
 	"sync"
 	"sync/atomic"
@@ -64,6 +65,12 @@ func Install(c *Config) {
 	statMu.Unlock()
 	callCtr = new(sync.Map)
 	spawnCtr = new(sync.Map)
+	if c != nil {
+		SyncPoints.Store(0)
+		SyncYields.Store(0)
+		SyncHeld.Store(0)
+		SyncNoTask.Store(0)
+	}
 }
 
 // PoisonEnabled reports whether dead pool items are overwritten in this run.
@@ -482,6 +489,89 @@ func (s *Stream) MaybeYield() {
 	}
 }
 
+// ---------------------------------------------------------------- preemption at synchronisation operations (R7)
+
+// A goroutine that runs a simulated task binds its stream; At finds it again by goroutine id. The registry is
+// written by the task itself when it starts and read only by that same goroutine, so it orders nothing between
+// tasks except "registered" before later lookups.
+type binding struct {
+	st   *Stream
+	held int // locks taken at rewritten sites and not yet released
+}
+
+var (
+	bound      sync.Map // goroutine id -> *binding
+	SyncPoints atomic.Int64
+	SyncYields atomic.Int64
+	SyncHeld   atomic.Int64 // points passed while holding a lock (no yield)
+	SyncNoTask atomic.Int64 // points passed on a goroutine that is not a simulated task (no yield)
+)
+
+func goid() uint64 {
+	var buf [64]byte
+	n := runtime.Stack(buf[:], false)
+	var id uint64
+	for _, ch := range buf[len("goroutine "):n] {
+		if ch < '0' || ch > '9' {
+			break
+		}
+		id = id*10 + uint64(ch-'0')
+	}
+	return id
+}
+
+// Bind makes the calling goroutine a task that yields through st; the result undoes it.
+func Bind(st *Stream) func() {
+	if st == nil {
+		return func() {}
+	}
+	id := goid()
+	bound.Store(id, &binding{st: st})
+	return func() { bound.Delete(id) }
+}
+
+func current() *binding {
+	v, ok := bound.Load(goid())
+	if !ok {
+		return nil
+	}
+	return v.(*binding)
+}
+
+// At is placed in front of a synchronisation operation on x: the scheduler may preempt the goroutine here.
+func At[T any](site string, x T) T {
+	c := get()
+	if c == nil || !c.Sched {
+		return x
+	}
+	SyncPoints.Add(1)
+	b := current()
+	switch {
+	case b == nil:
+		SyncNoTask.Add(1)
+	case b.held > 0:
+		SyncHeld.Add(1)
+	case b.st.r.intn(3) != 0:
+		SyncYields.Add(1)
+		b.st.Yield()
+	}
+	return x
+}
+
+// Held records that the calling task took (+1) or released (-1) a lock at a rewritten site.
+func Held(d int) {
+	c := get()
+	if c == nil || !c.Sched {
+		return
+	}
+	if b := current(); b != nil {
+		b.held += d
+		if b.held < 0 {
+			b.held = 0
+		}
+	}
+}
+
 // Rand exposes the stream's PRNG for harness decisions tied to this stream.
 func (s *Stream) Rand(n int) int {
 	if s == nil {
@@ -571,7 +661,6 @@ type Poisoner interface{ SimPoison() }
 func (p *Pool) Get() any {
 	c := get()
 	p.mu.Lock()
-	defer p.mu.Unlock()
 	if !p.init {
 		p.init = true
 		regMu.Lock()
@@ -609,9 +698,12 @@ func (p *Pool) Get() any {
 			it := p.items[i]
 			p.items = append(p.items[:i], p.items[i+1:]...)
 			p.Reused++
+			p.mu.Unlock()
 			return it
 		}
 	}
+	p.mu.Unlock()
+	// New runs without the pool's lock: it is user code and may contain preemption points (R7)
 	if p.New != nil {
 		return p.New()
 	}
